@@ -35,7 +35,7 @@ def probe(obj):
     own = [NAME2ID.get(k, 0) for k in obj.list_keys(_include_merge_parent=False)]
     vals = []
     for k in obj.list_keys():
-        vals.append(verif_part.untag(obj.get(k)))
+        vals.append(verif_part.untag(obj.get(k), NAME2ID.get(k, 0)))
     return keys, own, vals
 
 
